@@ -17,7 +17,7 @@ fn oids(v: &Json) -> Vec<ObjectId> {
         .collect()
 }
 
-fn collect<E: std::fmt::Display>(it: impl Iterator<Item = Result<gix_traverse::commit::Info, E>>) -> Json {
+fn collect<E: std::fmt::Display>(it: &mut impl Iterator<Item = Result<gix_traverse::commit::Info, E>>) -> Json {
     let mut seq = Vec::new();
     for item in it {
         match item {
@@ -35,9 +35,21 @@ fn main() {
     run(|case| {
         let odb = gix_odb::at(jstr(&case["objects"])).expect("open object database");
         let cg = jstr(&case["cgraph"]).to_owned();
-        let graph = || {
-            (!cg.is_empty())
-                .then(|| gix_commitgraph::Graph::from_info_dir(std::path::Path::new(&cg)).expect("commit-graph present"))
+        let load = || gix_commitgraph::Graph::from_info_dir(std::path::Path::new(&cg)).expect("commit-graph present");
+        // Every walk wants to own a `Graph`, which is not `Clone`; opening (mmap) and dropping (munmap) the file for each
+        // of the hundreds of thousands of walks dominates the run on this machine. So the file is mapped once per case
+        // and every walker gets a bitwise copy; walkers are then forgotten instead of dropped, so that nothing unmaps
+        // the shared mapping (the process is short-lived; the driver starts one per chunk of queries).
+        let master = std::cell::RefCell::new((!cg.is_empty()).then(load));
+        let graph = || master.borrow().as_ref().map(|g| unsafe { std::ptr::read(g) });
+        let after_panic = || {
+            // unwinding dropped a walker and with it the mapping: never touch the old master again
+            if let Some(old) = master.borrow_mut().take() {
+                std::mem::forget(old);
+            }
+            if !cg.is_empty() {
+                *master.borrow_mut() = Some(load());
+            }
         };
         let mut results = Vec::new();
         for q in case["queries"].as_array().expect("queries") {
@@ -50,7 +62,10 @@ fn main() {
                     name.into(),
                     match r {
                         Ok(v) => v,
-                        Err(msg) => json!({"panic": msg}),
+                        Err(msg) => {
+                            after_panic();
+                            json!({"panic": msg})
+                        }
                     },
                 );
             };
@@ -61,7 +76,11 @@ fn main() {
                             .sorting(sorting)
                             .map(|w| w.parents(parents).commit_graph(graph()))
                         {
-                            Ok(walk) => collect(walk),
+                            Ok(mut walk) => {
+                                let res = collect(&mut walk);
+                                std::mem::forget(walk);
+                                res
+                            }
                             Err(e) => json!({"seq": [], "error": e.to_string()}),
                         }
                     })
@@ -89,8 +108,15 @@ fn main() {
                         .with_commit_graph(graph())
                         .build()
                     {
-                        Ok(walk) => collect(walk),
-                        Err(e) => json!({"seq": [], "error": e.to_string()}),
+                        Ok(mut walk) => {
+                            let res = collect(&mut walk);
+                            std::mem::forget(walk);
+                            res
+                        }
+                        Err(e) => {
+                            after_panic(); // the failed builder dropped its copy of the graph
+                            json!({"seq": [], "error": e.to_string()})
+                        }
                     }
                 })
             };
